@@ -61,7 +61,8 @@ CLAIMS = {
         design="5/C02", category="translation_validation"),
     "C03": dict(
         text=("Props/C03.lean: limitRun_spec - the model of PhysicalLimit::poll_execute outputs exactly (input.drop offset).take count for every batching of the input (induction over the batch list, "
-              "any batch sizes incl. empty batches and batches straddling offset/limit) and is therefore independent of batch boundaries. Tie: generated queries are executed under a base configuration and "
+              "any batch sizes incl. empty batches and batches straddling offset/limit) and is therefore independent of batch boundaries; limit_length / limit_count_schedule_independent - the operator state is shared by all "
+              "partitions, so a multi-partition run is limitRun on the batches in arrival order and the number of rows emitted depends only on how many arrive; limit_sublist - the output is a slice of what arrived. Tie: generated queries are executed under a base configuration and "
               "random points of the grid partitions x batch_size x enable_hash_joins with rows spread over several INSERTs; all runs, and CREATE TABLE AS row counts/contents, must equal Sem."),
         note=TB + "tables are written with at most batch_size rows per INSERT (larger stored chunks panic: known finding probed on every run); thread interleavings below poll granularity are C04/C16.",
         technique="Lean proof (limit = exact slice for any batching) + configuration-grid differential against Sem",
@@ -112,10 +113,12 @@ CLAIMS = {
     "C17": dict(
         text=("Props/C17.lean about Core/Csv.lean (byte-level state machine of the csv_core reader as configured by DialectOptions, driven like CsvDecoder::decode and finished like CsvReader::poll_pull): "
               "decode_chunks / run_chunk_independent - decoding any chunking of the bytes (cuts inside quoted fields, between CR and LF, inside code points) equals decoding the whole input; a plain field "
-              "followed by LF yields exactly that one-field record; empty lines are skipped; the last record needs no terminator. Tie: 4000 random/structured byte strings x 8 dialects x random chunk sizes through "
+              "followed by LF yields exactly that one-field record; empty lines are skipped; the last record needs no terminator. Type inference (Core/CsvInfer.lean, value parsers abstract): infer_monotone (more sampled rows only widen), "
+              "infer_fits_when_nested, ladder_unsound_bool_then_int (the pinned commit's ladder types `true`,`1` as Int64, which rejects `true`, and depends on the row order - F68, repaired), inferFixed_fits (the repaired inference "
+              "accepts every sampled value for any parsers) and ladder_never_overshoots. Tie: 4000 random/structured byte strings x 8 dialects x random chunk sizes through "
               "the real CsvDecoder (clear_completed between chunks, empty input at end) must equal the model, and chunked must equal unchunked on the implementation itself; generated files (up to 5000 rows, "
-              "one > 4 MiB) read with read_csv under batch sizes 1..8192 and 1-8 partitions must equal the reader's own inference rules (dialect.rs, schema.rs) applied to the records the model decodes."),
-        note=TB + "csv_core is third-party code modelled by Core/Csv.lean; dialect/header/type inference rules are re-implemented in the driver (tools/c17.py) from dialect.rs/schema.rs; timestamp inference is a TODO in the engine.",
+              "one > 4 MiB) read with read_csv under batch sizes 1..8192 and 1-8 partitions must equal the records the model decodes, with the reader's dialect/header rules and, per column, the narrowest of boolean/integer/float/text that fits the sampled values (a third of the files have a column whose value kind changes)."),
+        note=TB + "csv_core is third-party code modelled by Core/Csv.lean; dialect and header rules are re-implemented in the driver (tools/c17.py) from dialect.rs/schema.rs, the column type is the property's 'narrowest type that fits' computed with re-implementations of the three value parsers; timestamp inference is a TODO in the engine.",
         technique="Lean proof (chunk independence of the record decoder) + decoder-level correspondence + model-based read_csv oracle",
         design="5/C17"),
     "C10": dict(
@@ -192,7 +195,9 @@ CLAIMS = {
               "and poll_error_reported. Barrier model of the countdown + flag + PartitionWakers pattern used by every cross-partition phase: barrier_no_lost_wake - for every partition count and every interleaving of arrivals "
               "and polls, once the flag is set no partition stays parked un-woken; the variant without wake_all loses a wake (witness). Execution stack (Core/ExecStack.lean, code-shaped model of ExecutionStack::pop_next with the operators' poll "
               "results as input): stack_finished_all_finalized - for every number of operators and every sequence of poll results, a partition pipeline that reports Finished has finalized every operator or seen it answer Exhausted "
-              "(so no join in another partition waits on it forever), and stack_finalizes_once; old_stack_skips_finalize is the pinned commit's stack finishing with the probe side of a join never finalized (F38/F64, repaired). Tie: the harness implements PipelineRuntime itself, owns the partition pipelines and "
+              "(so no join in another partition waits on it forever), and stack_finalizes_once; old_stack_skips_finalize is the pinned commit's stack finishing with the probe side of a join never finalized (F38/F64, repaired). Materialize (Core/Materialize.lean: producers append and finish, consumers scan lock-free then "
+              "check under the lock): materialize_done_saw_everything (a consumer that reports Exhausted has seen every row - the purpose of the second scan in poll_pull), materialize_no_lost_wake, and the variant without the "
+              "second scan losing a row (witness). Tie: the harness implements PipelineRuntime itself, owns the partition pipelines and "
               "polls them one at a time, wake-only, under random / fifo / lifo / client-starving / client-first schedules with injected spurious wakes: 49 query shapes covering every barrier kind x 5 partition counts x ~46 "
               "schedules must terminate (no runnable task while unfinished = lost wake-up, reported with the schedule) with the result of the ordinary run; ~580 (quick) generated typed queries run under the same scheduler; the real ExecutionStack driven by 4000 (quick) / 150000 scripted poll sequences through a cfg hook must make exactly the calls of ExecStack.step "
               "and satisfy the theorem's statement on its own call log; on the real thread pool QueryHandle::cancel at 0/20/150 ms of long "
